@@ -10,13 +10,24 @@ import (
 // If this is the case, loop obfuscations are not applied on this node.
 func (self *Transformer) stmtCanControlLoop(node ast.AnalyzedStatement) bool {
 	switch node.Kind() {
-	case ast.TypeDefinitionStatementKind:
+	case ast.TypeDefinitionStatementKind, ast.SingletonTypeDefinitionStatementKind:
+		return false
+	case ast.TriggerStatementKind:
+		node := node.(ast.AnalyzedTriggerStatement)
+		for _, arg := range node.TriggerArguments.List {
+			if self.exprCanControlLoop(arg.Expression) {
+				return true
+			}
+		}
 		return false
 	case ast.LetStatementKind:
 		node := node.(ast.AnalyzedLetStatement)
 		return self.exprCanControlLoop(node.Expression)
 	case ast.ReturnStatementKind:
 		node := node.(ast.AnalyzedReturnStatement)
+		if node.ReturnValue == nil {
+			return false
+		}
 		return self.exprCanControlLoop(node.ReturnValue)
 	case ast.BreakStatementKind, ast.ContinueStatementKind:
 		// These statements are what we are looking for, so return `true`
@@ -66,7 +77,8 @@ func (self *Transformer) exprCanControlLoop(node ast.AnalyzedExpression) bool {
 	case ast.NoneLiteralExpressionKind:
 		return false
 	case ast.RangeLiteralExpressionKind:
-		return false
+		node := node.(ast.AnalyzedRangeLiteralExpression)
+		return self.exprCanControlLoop(node.Start) || self.exprCanControlLoop(node.End)
 	case ast.ListLiteralExpressionKind:
 		node := node.(ast.AnalyzedListLiteralExpression)
 		for _, expr := range node.Values {
@@ -150,6 +162,10 @@ func (self *Transformer) exprCanControlLoop(node ast.AnalyzedExpression) bool {
 			if self.exprCanControlLoop(arm.Action) {
 				return true
 			}
+		}
+
+		if node.DefaultArmAction != nil {
+			return self.exprCanControlLoop(*node.DefaultArmAction)
 		}
 
 		return false
